@@ -1,7 +1,9 @@
 //@ unit tbl_ibm1047_w
 //@ props C05 C01
 //@ kind W
-//@ def all NB=2 TBL_PART=1 
+//@ def quick NB=1
+//@ def thorough NB=2
+//@ def all TBL_PART=1 
 //@ cbmc all --unwind 4 --unwindset tbl_check_sorted.0:353,tbl_check_bytes.0:257,spec_byte_for.0:257,spec_bestfit.0:353,XML256TableTranscoder_xlatOneTo.0:11 --unwinding-assertions
 //@ entry h_tbl256_w
 //@ note W: XML256TableTranscoder instantiated with the REAL tables of XMLIBM1047Transcoder (IBM1047); table facts are concrete and complete (all 256 bytes, all to-table entries); interface checks over every byte / unit string of length <= NB, both UnRepOpts; canTranscodeTo over every 32-bit argument; loops fully unwound, unwinding assertions on
